@@ -16,7 +16,7 @@ RULE = ('cases = role x state x event x primitive variant x ARTIM-prior x route 
         'running loop); every one of the 247 cells is evaluated for both roles; non-trivial = the '
         'cell is one of the 123 defined cells; distinct = distinct (role, state, event, variant, '
         'timer-prior, route)'
-        '; every cell with bytes of a following PDU in the receive buffer; every writing cell also with a transport failing at the write; Sta13 also reached through AA-1/AA-7/AA-8; route slow-transport: (Sta6,Evt9) with a peer that does not read for 5.5-61 s; closing cells with the connection reset right behind the PDU')
+        '; every cell with bytes of a following PDU in the receive buffer; every writing cell also with a transport failing at the write; Sta13 also reached through AA-1/AA-7/AA-8; route slow-transport: (Sta6,Evt9) with a peer that does not read for 5.5-61 s; closing cells with the connection reset right behind the PDU; route connect-fails: (Sta1,Evt1)+(Sta4,Evt17) for seven ways connect() fails')
 ASSUMPTIONS = ['R-fsm transcribed from PS3.8 Table 9-10 (123 defined cells, asserted)',
                'observation through current_state, timer._start_time, dul_socket, to_service_user '
                'and the bytes that reached the peer endpoint',
@@ -26,7 +26,11 @@ ECHO_CMD = rc.enc_command({0x0002: rc.VERIFICATION, 0x0100: 0x0030, 0x0110: 9, 0
 RAW = {
     'Evt3': [('ac', rc.enc_assoc_ac(results=((1, 0, rc.IMPLICIT_LE),), max_length=4096))],
     'Evt4': [('rj111', rc.enc_assoc_rj(1, 1, 1)), ('rj232', rc.enc_assoc_rj(2, 3, 2))],
-    'Evt6': [('rq', rc.enc_assoc_rq(contexts=convo.CTXS, max_length=4096))],
+    'Evt6': [('rq', rc.enc_assoc_rq(contexts=convo.CTXS, max_length=4096)),
+             # protocol-version field other than 0001H (bit 0 clear / further bits set): a
+             # provider may find such a request unacceptable - then the other branch of AE-6
+             ('rq-v2', rc.enc_assoc_rq(contexts=convo.CTXS, max_length=4096, protocol=2)),
+             ('rq-v3', rc.enc_assoc_rq(contexts=convo.CTXS, max_length=4096, protocol=3))],
     'Evt10': [('pdata-complete', rc.enc_pdata([(1, 3, ECHO_CMD)])),
               ('pdata-partial', rc.enc_pdata([(1, 1, ECHO_CMD[:10])])),
               ('pdata-rest', rc.enc_pdata([(1, 3, ECHO_CMD[10:])]))],
@@ -152,6 +156,22 @@ def cases(tier, seed):      # noqa: F811
                            route='slow-transport', stall=stall, cap=cap, seed=seed)
 
 
+_slow_cases = cases
+
+
+def cases(tier, seed):      # noqa: F811
+    for c in _slow_cases(tier, seed):
+        yield c
+    # cells (Sta1,Evt1) AE-1 + (Sta4,Evt17) AA-4 through the running loop: the transport
+    # connection can not be opened, for every way connect() fails - the user is told
+    # (A-P-ABORT), the provider is back in Sta1 without a connection (C13's family, run here
+    # for the table)
+    for f in ('refused', 'timeout', 'netunreach', 'hostunreach', 'addrnotavail', 'gaierror',
+              'emfile'):
+        yield dict(role='requestor', state='Sta1', event='Evt1', var=f, timer='asis',
+                   route='connect-fails', seed=seed)
+
+
 def _lib_pdu(raw):
     from pynetdicom2 import dulprovider
     cls, _ = dulprovider.PDU_TYPES[raw[0]]
@@ -211,6 +231,14 @@ def _establish(rig, role, state, route):
 
 
 def run_case(case):
+    if case['route'] == 'connect-fails':
+        from . import c13
+        r = c13.run_case(dict(convo='R1_echo', cut=None, ending='silence', kill=None,
+                              connect=case['var'], seed='c04cf/%s' % case['seed']))
+        for v_ in r.get('violations', []):
+            v_['sig'] = 'C04 cells=(Sta1,Evt1)+(Sta4,Evt17) ' + v_['sig'].replace('C13 ', '')
+        r['sets'] = {'cells_evaluated': ['Sta1,Evt1', 'Sta4,Evt17']}
+        return r
     if case['route'] == 'slow-transport':
         from . import c05
         r = c05.run_stalled_peer(dict(role=case['role'], mode='stalled-peer', stall=case['stall'],
